@@ -33,6 +33,35 @@ inductive Blk
   | other (src : String) (k : Blk)
   deriving DecidableEq, Repr
 
+/-- a boolean Go expression over the error err (the decision-making conditions of acceptable / WithAcceptable) -/
+inductive BX
+  | lit (b : Bool)
+  | isNil (v : String)                 -- v == nil
+  | errIn (sentinels : List String)    -- errorx.In(err, …) / errors.Is(err, x)
+  | errAs (v : String)                 -- errors.As(err, &v)
+  | call (f : String)                  -- f(err)
+  | not (a : BX)
+  | or (a b : BX)                      -- a || b (short-circuit)
+  | and (a b : BX)
+  | other (src : String)
+  deriving DecidableEq, Repr
+
+/-- a function body of the form  [var v T;] if c { return v } … return v -/
+inductive RC
+  | ifRet (c v : BX) (k : RC)
+  | ret (v : BX)
+  | decl (v ty : String) (k : RC)
+  | other (src : String)
+  | fallOff
+  deriving DecidableEq, Repr
+
+/-- a function value: a name, or a literal  func(err error) bool { return body } -/
+inductive FX
+  | name (n : String)
+  | lam (body : BX)
+  | other (src : String)
+  deriving DecidableEq, Repr
+
 `
 
 var c14Verb = regexp.MustCompile(`%[#+\- 0]*[a-zA-Z]`)
@@ -262,6 +291,159 @@ func (e *emitter) c14VarInit(s *source, rel, name, leanName string) {
 	e.printf("/-- initialiser of `%s` in %s -/\ndef %s : String := %s\n\n", name, rel, leanName, leanString(val))
 }
 
+// c14BX translates a boolean expression over `err` into a BX term.
+func (s *source) c14BX(e ast.Expr) string {
+	switch x := e.(type) {
+	case *ast.ParenExpr:
+		return s.c14BX(x.X)
+	case *ast.Ident:
+		if x.Name == "true" || x.Name == "false" {
+			return "(.lit " + x.Name + ")"
+		}
+	case *ast.UnaryExpr:
+		if x.Op == token.NOT {
+			return "(.not " + s.c14BX(x.X) + ")"
+		}
+	case *ast.BinaryExpr:
+		switch x.Op {
+		case token.LOR:
+			return "(.or " + s.c14BX(x.X) + " " + s.c14BX(x.Y) + ")"
+		case token.LAND:
+			return "(.and " + s.c14BX(x.X) + " " + s.c14BX(x.Y) + ")"
+		case token.EQL, token.NEQ:
+			if id, ok := x.Y.(*ast.Ident); ok && id.Name == "nil" {
+				t := "(.isNil " + leanString(s.src(x.X)) + ")"
+				if x.Op == token.NEQ {
+					t = "(.not " + t + ")"
+				}
+				return t
+			}
+		}
+	case *ast.CallExpr:
+		fun := s.src(x.Fun)
+		isErr := func(a ast.Expr) bool { id, ok := a.(*ast.Ident); return ok && id.Name == "err" }
+		switch {
+		case (fun == "errorx.In" || fun == "errors.Is") && len(x.Args) >= 2 && isErr(x.Args[0]):
+			var ss []string
+			for _, a := range x.Args[1:] {
+				ss = append(ss, leanString(s.src(a)))
+			}
+			return "(.errIn [" + strings.Join(ss, ", ") + "])"
+		case fun == "errors.As" && len(x.Args) == 2 && isErr(x.Args[0]):
+			if u, ok := x.Args[1].(*ast.UnaryExpr); ok && u.Op == token.AND {
+				return "(.errAs " + leanString(s.src(u.X)) + ")"
+			}
+		case len(x.Args) == 1 && isErr(x.Args[0]):
+			return "(.call " + leanString(fun) + ")"
+		}
+	}
+	return "(.other " + leanString(c14Flat(s.src(e))) + ")"
+}
+
+// c14RC translates `[var v T;] if c { return v } … return v` into an RC term.
+func (s *source) c14RC(list []ast.Stmt) string {
+	if len(list) == 0 {
+		return ".fallOff"
+	}
+	switch x := list[0].(type) {
+	case *ast.IfStmt:
+		if x.Init == nil && x.Else == nil && len(x.Body.List) == 1 {
+			if r, ok := x.Body.List[0].(*ast.ReturnStmt); ok && len(r.Results) == 1 {
+				return fmt.Sprintf("(.ifRet %s %s <|\n    %s)", s.c14BX(x.Cond), s.c14BX(r.Results[0]), s.c14RC(list[1:]))
+			}
+		}
+	case *ast.ReturnStmt:
+		if len(x.Results) == 1 && len(list) == 1 {
+			return "(.ret " + s.c14BX(x.Results[0]) + ")"
+		}
+	case *ast.DeclStmt:
+		if gd, ok := x.Decl.(*ast.GenDecl); ok && gd.Tok == token.VAR && len(gd.Specs) == 1 {
+			if vs, ok := gd.Specs[0].(*ast.ValueSpec); ok && len(vs.Names) == 1 && len(vs.Values) == 0 && vs.Type != nil {
+				return fmt.Sprintf("(.decl %s %s <|\n    %s)", leanString(vs.Names[0].Name), leanString(s.src(vs.Type)), s.c14RC(list[1:]))
+			}
+		}
+	}
+	return "(.other " + leanString(c14Flat(s.src(list[0]))) + ")"
+}
+
+func (e *emitter) c14RCDef(s *source, rel, goName, leanName string) {
+	fd := s.findFunc(rel, goName)
+	if fd == nil {
+		e.errors = append(e.errors, fmt.Sprintf("function %s not found in %s", goName, rel))
+		e.printf("def %s : RC := .other \"MISSING\"\n\n", leanName)
+		return
+	}
+	e.printf("/-- decision chain of `%s` in %s, translated -/\ndef %s : RC :=\n  %s\n\n", goName, rel, leanName, s.c14RC(fd.Body.List))
+}
+
+// c14FX translates a function-valued expression.
+func (s *source) c14FX(x ast.Expr) string {
+	if fl, ok := x.(*ast.FuncLit); ok {
+		if len(fl.Body.List) == 1 && fl.Type.Params != nil && len(fl.Type.Params.List) == 1 &&
+			len(fl.Type.Params.List[0].Names) == 1 && fl.Type.Params.List[0].Names[0].Name == "err" {
+			if r, ok := fl.Body.List[0].(*ast.ReturnStmt); ok && len(r.Results) == 1 {
+				return "(.lam " + s.c14BX(r.Results[0]) + ")"
+			}
+		}
+		return "(.other " + leanString(c14Flat(s.src(x))) + ")"
+	}
+	switch x.(type) {
+	case *ast.Ident, *ast.SelectorExpr:
+		return "(.name " + leanString(s.src(x)) + ")"
+	}
+	return "(.other " + leanString(c14Flat(s.src(x))) + ")"
+}
+
+// c14WithAcceptable: the option closure  if C { conn.accept = T } else { v := L; conn.accept = E }  as
+// condition (BX), the function value installed in each branch (FX) and the local bindings of the else branch.
+func (e *emitter) c14WithAcceptable(s *source, rel string) {
+	fd := s.findFunc(rel, "WithAcceptable")
+	cond, thn, els := "(.other \"MISSING\")", "(.other \"MISSING\")", "(.other \"MISSING\")"
+	var lets []string
+	param := ""
+	ok := false
+	if fd != nil && len(fd.Body.List) == 1 && fd.Type.Params != nil && len(fd.Type.Params.List) == 1 && len(fd.Type.Params.List[0].Names) == 1 {
+		param = fd.Type.Params.List[0].Names[0].Name
+		if r, isRet := fd.Body.List[0].(*ast.ReturnStmt); isRet && len(r.Results) == 1 {
+			if fl, isFn := r.Results[0].(*ast.FuncLit); isFn && len(fl.Body.List) == 1 {
+				if ifs, isIf := fl.Body.List[0].(*ast.IfStmt); isIf && ifs.Init == nil {
+					assignTo := func(st ast.Stmt, lhs string) (ast.Expr, bool) {
+						a, isA := st.(*ast.AssignStmt)
+						if !isA || len(a.Lhs) != 1 || len(a.Rhs) != 1 || s.src(a.Lhs[0]) != lhs {
+							return nil, false
+						}
+						return a.Rhs[0], true
+					}
+					if eb, isBlk := ifs.Else.(*ast.BlockStmt); isBlk && len(ifs.Body.List) == 1 && len(eb.List) >= 1 {
+						t, ok1 := assignTo(ifs.Body.List[0], "conn.accept")
+						el, ok2 := assignTo(eb.List[len(eb.List)-1], "conn.accept")
+						ok3 := true
+						for _, st := range eb.List[:len(eb.List)-1] {
+							a, isA := st.(*ast.AssignStmt)
+							if !isA || a.Tok != token.DEFINE || len(a.Lhs) != 1 || len(a.Rhs) != 1 {
+								ok3 = false
+								break
+							}
+							lets = append(lets, fmt.Sprintf("(%s, %s)", leanString(s.src(a.Lhs[0])), s.c14FX(a.Rhs[0])))
+						}
+						if ok1 && ok2 && ok3 {
+							cond, thn, els, ok = s.c14BX(ifs.Cond), s.c14FX(t), s.c14FX(el), true
+						}
+					}
+				}
+			}
+		}
+	}
+	if !ok {
+		e.errors = append(e.errors, "WithAcceptable: option closure not of the form if C { conn.accept = T } else { lets; conn.accept = E }")
+	}
+	e.printf("/-- `WithAcceptable(%s)`: the condition of its option closure -/\ndef withAcceptableCond : BX := %s\n\n", param, cond)
+	e.printf("def withAcceptableParam : String := %s\n\n", leanString(param))
+	e.printf("/-- … what it installs as conn.accept when the condition holds -/\ndef withAcceptableThen : FX := %s\n\n", thn)
+	e.printf("/-- … the local bindings of its else branch -/\ndef withAcceptableLets : List (String × FX) := [%s]\n\n", strings.Join(lets, ", "))
+	e.printf("/-- … what it installs as conn.accept otherwise -/\ndef withAcceptableElse : FX := %s\n\n", els)
+}
+
 func init() {
 	register("C14", func(s *source, e *emitter) {
 		const tx = "core/stores/sqlx/tx.go"
@@ -299,5 +481,32 @@ func init() {
 		e.c14LitFields(s, sc, "NewSqlConn", "commonSqlConn", "litNewSqlConn")
 		e.c14LitFields(s, sc, "NewSqlConnFromDB", "commonSqlConn", "litNewSqlConnFromDB")
 		e.c14VarInit(s, "core/stores/sqlx/errors.go", "errCantNestTx", "errCantNestTxInit")
+		// round 4: the decision-making conditions translated into terms (semantic ties in Tie.lean)
+		e.c14RCDef(s, sc, "commonSqlConn.acceptable", "acceptableRC")
+		e.c14WithAcceptable(s, sc)
+		e.c14BlkDef(s, tx, "begin", "beginBlk")
+		// round 4: the statement methods a body uses inside the transaction, the raw-Tx session constructor,
+		// the constructors' option loops and the CachedConn literal
+		for _, m := range []struct{ fn, lean, callee string }{
+			{"txSession.Exec", "wireTxExec", "t.ExecCtx"}, {"txSession.QueryRow", "wireTxQueryRow", "t.QueryRowCtx"},
+			{"txSession.QueryRowCtx", "wireTxQueryRowCtx", "query"}, {"txSession.QueryRows", "wireTxQueryRows", "t.QueryRowsCtx"},
+			{"txSession.QueryRowsCtx", "wireTxQueryRowsCtx", "query"}, {"txSession.Prepare", "wireTxPrepare", "t.PrepareCtx"},
+			{"txSession.PrepareCtx", "wireTxPrepareCtx", "t.Tx.PrepareContext"},
+			{"txSession.QueryRowPartialCtx", "wireTxQueryRowPartialCtx", "query"},
+			{"txSession.QueryRowsPartialCtx", "wireTxQueryRowsPartialCtx", "query"},
+		} {
+			e.c14Wiring(s, tx, m.fn, m.lean, m.callee)
+		}
+		e.c14Wiring(s, tx, "NewSessionFromTx", "wireNewSessionFromTx")
+		e.c14Wiring(s, tx, "txConn.RawDB", "wireTxConnRawDB")
+		e.shapeDef(s, sc, "NewSqlConn", "newSqlConnShape")
+		e.shapeDef(s, sc, "NewSqlConnFromDB", "newSqlConnFromDBShape")
+		e.c14Wiring(s, sc, "NewSqlConn", "wireNewSqlConn", "opt")
+		e.c14Wiring(s, sc, "NewSqlConnFromDB", "wireNewSqlConnFromDB", "opt")
+		e.c14LitFields(s, cc, "NewConnWithCache", "CachedConn", "litNewConnWithCache")
+		e.c14Wiring(s, cc, "NewConn", "wireNewConn")
+		e.c14Wiring(s, cc, "NewNodeConn", "wireNewNodeConn")
+		e.c14VarInit(s, "core/stores/sqlx/errors.go", "ErrNotFound", "errNotFoundInit")
+		e.c14VarInit(s, cc, "ErrNotFound", "cachedErrNotFoundInit")
 	})
 }
